@@ -354,16 +354,20 @@ def validate(doc, workers=8, timeout=3600):
     return res
 
 
-def validate_sharded(tab, traces, shards=8, workers=2):
-    """split traces into shards validated by parallel TLC runs."""
+def validate_sharded(tab, traces, shards=8, workers=1, max_traces=1500):
+    """split traces into batches validated by parallel single-worker TLC runs (at most `shards` at a
+    time, at most max_traces traces per run)"""
+    if not traces:
+        return {'diag': [], 'over': [], 'skip': [], 'end': [], 'stats': [], 'nobs': 0}
     if len(traces) < 200:
-        shards = 1
-        workers = 4
-    parts = [traces[i::shards] for i in range(shards)]
-    parts = [p for p in parts if p]
+        parts = [traces]
+    else:
+        nparts = max(shards, -(-len(traces) // max_traces))
+        parts = [traces[i::nparts] for i in range(nparts)]
+        parts = [p for p in parts if p]
     docs = [build_input(tab, p) for p in parts]
     ctx = multiprocessing.get_context('fork')
-    with ctx.Pool(len(docs)) as pool:
+    with ctx.Pool(min(shards, len(docs))) as pool:
         results = pool.starmap(validate, [(d, workers) for d in docs])
     merged = {'diag': [], 'over': [], 'skip': [], 'end': [], 'stats': []}
     for r in results:
